@@ -492,6 +492,205 @@ def run_contacts(ctx, E, cases, report):
         raise Machinery("no contact case was compared")
 
 
+# ---------------------------------------------------------------------------------------------------------------
+# constraint rows (MjxImpedance.tla): solref / solimp lattice for limits, contacts, equalities, friction loss
+# ---------------------------------------------------------------------------------------------------------------
+ISPEC = os.path.join(TLA, "MjxImpedance.tla")
+ISLOTS = (("limit", 4), ("contact", 2), ("equality", 4), ("friction", 2))     # fixed structure of a replay model
+IFIELDS = ("efc_J", "efc_pos", "efc_margin", "efc_D", "efc_aref", "efc_frictionloss")
+
+
+def ibase(kind):
+    return kind.split("-")[0]
+
+
+def solimp_str(si):
+    return "%s %s %s %s %d" % (num(si["dmin"]), num(si["dmax"]), num(si["width"]), num(si["mid"]), si["power"])
+
+
+def solref_str(sr):
+    if sr["form"] == "standard":
+        return "%s %s" % (num(sr["a"]), num(sr["b"]))
+    return "%s %s" % (repr(-float(fr(sr["a"]))), repr(-float(fr(sr["b"]))))
+
+
+def imp_xml(h, slots):
+    """slots: list of (base kind, parameter dict or None): si, sr, m, margin as TLC values"""
+    dflt = {"si": {"dmin": (1, 2), "dmax": (7, 8), "width": (1, 2), "mid": (1, 2), "power": 2},
+            "sr": {"form": "standard", "a": (1, 2), "b": (1, 1)}, "m": (2, 1), "margin": (1, 4)}
+    bodies, pairs, eqs = [], [], []
+    for i, (base, pr) in enumerate(slots):
+        pr = pr or dflt
+        si, sr, x = solimp_str(pr["si"]), solref_str(pr["sr"]), 3 * i
+        inert = '<inertial pos="0 0 0" mass="%s" diaginertia="1 1 1"/>' % num(pr["m"])
+        if base == "limit":
+            bodies.append('<body name="b%d" pos="%d 0 0"><joint name="j%d" type="slide" axis="0 0 1" limited="true" range="-1 3" '
+                          'margin="%s" solreflimit="%s" solimplimit="%s"/>%s</body>' % (i, x, i, num(pr["margin"]), sr, si, inert))
+        elif base == "contact":
+            bodies.append('<geom name="pl%d" type="plane" size="1 1 .1" pos="%d 0 0" contype="0" conaffinity="0"/>' % (i, x))
+            bodies.append('<body name="b%d" pos="%d 0 0.5"><joint name="j%d" type="slide" axis="0 0 1"/><geom name="sp%d" '
+                          'type="sphere" size="0.5" mass="%s" contype="0" conaffinity="0"/></body>' % (i, x, i, i, num(pr["m"])))
+            pairs.append('<pair name="pr%d" geom1="pl%d" geom2="sp%d" condim="1" margin="%s" solref="%s" solimp="%s"/>'
+                         % (i, i, i, num(pr["margin"]), sr, si))
+        elif base == "equality":
+            bodies.append('<body name="b%d" pos="%d 0 0"><joint name="j%d" type="slide" axis="0 0 1"/>%s</body>' % (i, x, i, inert))
+            eqs.append('<joint name="eq%d" joint1="j%d" polycoef="0.5 0 0 0 0" solref="%s" solimp="%s"/>' % (i, i, sr, si))
+        else:
+            bodies.append('<body name="b%d" pos="%d 0 0"><joint name="j%d" type="slide" axis="0 0 1" frictionloss="0.5" '
+                          'solreffriction="%s" solimpfriction="%s"/>%s</body>' % (i, x, i, sr, si, inert))
+    return ('<mujoco><option timestep="%s" gravity="0 0 0"/><worldbody>' % num(h) + "".join(bodies) + "</worldbody><contact>"
+            + "".join(pairs) + "</contact><equality>" + "".join(eqs) + "</equality></mujoco>")
+
+
+def run_impedance(ctx, E, cases, report, B):
+    """cases: ev records (op = row) of MjxImpedance.tla"""
+    mujoco, mjx, np, jax, jp = E.mujoco, E.mjx, E.np, E.jax, E.jp
+    layout = [b for (b, n) in ISLOTS for _ in range(n)]
+    fwd = jax.jit(jax.vmap(mjx.fwd_position, in_axes=(None, 0)))
+    # vacuity: every region of the sigmoid with a skewed midpoint and a power other than 2
+    need = {"start", "lower", "upper", "sat"}
+    hit = {e["branch"] for e in cases if e["g"]["si"]["mid"] != (1, 2) and e["g"]["si"]["power"] != 2
+           and e["g"]["si"]["dmin"] != e["g"]["si"]["dmax"]}
+    if not need <= hit:
+        raise Machinery("vacuity: sigmoid regions %s never reached with midpoint != 1/2 and power != 2" % sorted(need - hit))
+    if not {"standard", "direct"} <= {e["g"]["sr"]["form"] for e in cases}:
+        raise Machinery("vacuity: both solref forms are required")
+    groups = {}
+    for e in cases:
+        g = e["g"]
+        pk = (repr(sorted(g["si"].items())), repr(sorted(g["sr"].items())), g["m"], g["margin"])
+        groups.setdefault(g["h"], {}).setdefault(ibase(g["kind"]), {}).setdefault(pk, []).append(e)
+    notimpl = {}
+    did_control = False
+    ncmp = 0
+    for h in sorted(groups, key=repr):
+        per = {b: [sorted(v, key=lambda e: repr((e["g"]["kind"], e["g"]["x"], e["g"]["v"])))
+                   for _k, v in sorted(groups[h].get(b, {}).items())] for (b, _n) in ISLOTS}
+        npack = max((len(per[b]) + n - 1) // n for (b, n) in ISLOTS)
+        for pi in range(npack):
+            slots = []
+            for (b, n) in ISLOTS:
+                chunk = per[b][pi * n:(pi + 1) * n]
+                slots += [(b, c) for c in chunk] + [(b, None)] * (n - len(chunk))
+            def prm(c):
+                g = c[0]["g"]
+                return {"si": g["si"], "sr": g["sr"], "m": g["m"], "margin": g["margin"]}
+            xml = imp_xml(h, [(b, prm(c) if c else None) for (b, c) in slots])
+            m = mujoco.MjModel.from_xml_string(xml)
+            try:
+                mx = mjx.put_model(m)
+            except NotImplementedError as ex_:
+                notimpl[str(ex_)[:120]] = notimpl.get(str(ex_)[:120], 0) + 1
+                continue
+            nmax = max(len(c) for (_b, c) in slots if c)
+            # row addresses in MJX's static layout: equalities, friction dofs, limited joints, contacts
+            eq_slots = [i for i, b in enumerate(layout) if b == "equality"]
+            fr_slots = [i for i, b in enumerate(layout) if b == "friction"]
+            li_slots = [i for i, b in enumerate(layout) if b == "limit"]
+            xrow = {}
+            for k, i in enumerate(eq_slots):
+                xrow[i] = k
+            for k, i in enumerate(fr_slots):
+                xrow[i] = len(eq_slots) + k
+            for k, i in enumerate(li_slots):
+                xrow[i] = len(eq_slots) + len(fr_slots) + k
+            dx0 = mjx.make_data(m)
+            gid = lambda nm: mujoco.mj_name2id(m, mujoco.mjtObj.mjOBJ_GEOM, nm)
+            cadr = np.asarray(dx0._impl.contact.efc_address)
+            if list(np.asarray(dx0._impl.efc_type)[:len(eq_slots) + len(fr_slots) + len(li_slots)]) != \
+                    [0] * len(eq_slots) + [1] * len(fr_slots) + [3] * len(li_slots):
+                raise Machinery("unexpected static efc_type layout %s" % list(np.asarray(dx0._impl.efc_type)))
+            for off in range(0, nmax, B):
+                qpos = np.zeros((B, m.nq))
+                qvel = np.zeros((B, m.nv))
+                rows = []
+                for bi in range(B):
+                    rw = {}
+                    for i, (_b, c) in enumerate(slots):
+                        if c and off + bi < len(c):
+                            e = c[off + bi]
+                            rw[i] = e
+                            qpos[bi, i] = float(fr(e["q"]))
+                            qvel[bi, i] = float(fr(e["g"]["v"]))
+                        else:
+                            qpos[bi, i] = 1.0            # no violation anywhere (equality rows exist but are not compared)
+                    rows.append(rw)
+                dxb = jax.tree_util.tree_map(lambda a: jp.broadcast_to(a, (B,) + a.shape), dx0)
+                dxb = fwd(mx, dxb.replace(qpos=jp.array(qpos), qvel=jp.array(qvel)))
+                X = {f: np.asarray(getattr(dxb._impl, f)) for f in IFIELDS}
+                cgeom = np.asarray(dxb._impl.contact.geom)[0]           # geom ids of the contact slots (filled by collision)
+                for i, b in enumerate(layout):
+                    if b == "contact":
+                        js = [j for j, gg in enumerate(cgeom) if set(int(v) for v in gg) == {gid("pl%d" % i), gid("sp%d" % i)}]
+                        if len(js) != 1:
+                            raise Machinery("contact slot of body %d not found in mjx.Data" % i)
+                        xrow[i] = int(cadr[js[0]])
+                d = mujoco.MjData(m)
+                for bi, rw in enumerate(rows):
+                    if not rw:
+                        continue
+                    mujoco.mj_resetData(m, d)
+                    d.qpos[:] = qpos[bi]
+                    d.qvel[:] = qvel[bi]
+                    mujoco.mj_forward(m, d)
+                    ctype, cid = np.array(d.efc_type), np.array(d.efc_id)
+                    cJ = np.array(d.efc_J).reshape(d.nefc, m.nv)
+                    kbip = np.array(d.efc_KBIP).reshape(d.nefc, 4)
+                    for i, e in rw.items():
+                        base = layout[i]
+                        g = e["g"]
+                        # ---- the row of this body in the C engine -------------------------------------------------
+                        if base == "equality":
+                            sel = [r for r in range(d.nefc) if ctype[r] == 0 and cid[r] == mujoco.mj_name2id(m, mujoco.mjtObj.mjOBJ_EQUALITY, "eq%d" % i)]
+                        elif base == "friction":
+                            sel = [r for r in range(d.nefc) if ctype[r] == 1 and cid[r] == i]
+                        elif base == "limit":
+                            sel = [r for r in range(d.nefc) if ctype[r] == 3 and cid[r] == i]
+                        else:
+                            sel = [r for r in range(d.nefc) if ctype[r] in (4, 5, 6, 7) and cJ[r, i] != 0]
+                        want = {"efc_J": fr(e["J"]), "efc_pos": fr(e["pos"]), "efc_margin": fr(e["margin"]), "efc_D": fr(e["D"]),
+                                "efc_aref": fr(e["aref"]), "efc_frictionloss": fr(e["floss"])}
+                        key = [g["kind"], solimp_str(g["si"]), solref_str(g["sr"]), num(g["m"]), num(g["margin"]), num(g["x"]), num(g["v"])]
+                        ctx.case({"row": key}, sample={"op": "constraint-row", "kind": g["kind"], "solimp": solimp_str(g["si"]),
+                                                       "solref": solref_str(g["sr"]), "x": num(g["x"])})
+                        ncmp += 1
+                        desc = "%s solimp=(%s) solref=(%s) m=%s margin=%s h=%s depth=%s*width v=%s [%s branch]" % (
+                            g["kind"], solimp_str(g["si"]), solref_str(g["sr"]), fr(g["m"]), fr(g["margin"]), fr(h), fr(g["x"]),
+                            fr(g["v"]), e["branch"])
+                        if len(sel) != 1:
+                            raise Machinery("the reference C engine has %d rows for %s, the specification 1" % (len(sel), desc))
+                        r = sel[0]
+                        cgot = {"efc_J": cJ[r, i], "efc_pos": d.efc_pos[r], "efc_margin": d.efc_margin[r], "efc_D": d.efc_D[r],
+                                "efc_aref": d.efc_aref[r], "efc_frictionloss": d.efc_frictionloss[r]}
+                        for f in IFIELDS:
+                            if not near(float(cgot[f]), want[f]):
+                                raise Machinery("the reference C engine disagrees with MjxImpedance.tla on %s: %s = %r, specification %s "
+                                                "(K B I of the engine %s, specification %s %s %s)" % (
+                                                    desc, f, float(cgot[f]), want[f], kbip[r][:3], fr(e["k"]), fr(e["b"]), fr(e["imp"])))
+                        if not (near(float(kbip[r][0]), fr(e["k"])) and near(float(kbip[r][1]), fr(e["b"])) and near(float(kbip[r][2]), fr(e["imp"]))):
+                            raise Machinery("the reference C engine's efc_KBIP %s differs from the specification k=%s b=%s imp=%s on %s"
+                                            % (kbip[r][:3], fr(e["k"]), fr(e["b"]), fr(e["imp"]), desc))
+                        # ---- MJX ---------------------------------------------------------------------------------------
+                        xr = xrow[i]
+                        xgot = {f: (X[f][bi, xr, i] if f == "efc_J" else X[f][bi, xr]) for f in IFIELDS}
+                        if not did_control:
+                            ctx.control("perturbed expected efc_D is flagged", not near(float(xgot["efc_D"]), want["efc_D"] * Fraction(1001, 1000)))
+                            did_control = True
+                        bad = [f for f in IFIELDS if not near(float(xgot[f]), want[f])]
+                        if not bad:
+                            ctx.trace_ok()
+                        for f in bad:
+                            report("constraint:%s:%s:%s" % (base, e["branch"], f),
+                                   "%s: mjx %s = %r, C engine %r, specification %s" % (desc, f, float(xgot[f]), float(cgot[f]), want[f]),
+                                   {"kind": "row", "xml": xml, "body": i, "row": xr, "field": f, "qpos": [float(v) for v in qpos[bi]],
+                                    "qvel": [float(v) for v in qvel[bi]], "want": [want[f].numerator, want[f].denominator]})
+    if notimpl:
+        ctx.cov["put_model_notimplemented_rows"] = notimpl
+    if not did_control:
+        raise Machinery("no constraint row was compared")
+    return ncmp
+
+
 def run(ctx):
     t0 = time.time()
     quick = ctx.quick
@@ -510,6 +709,10 @@ def run(ctx):
     jobs["con"] = ex.submit(tladump.run_dump, CSPEC, os.path.join(TLA, "MjxContact_MC.cfg" if quick else "MjxContact_Deep.cfg"),
                             timeout=900, workers=2, coverage=False, select=csel)
     jobs["conneg"] = ex.submit(tlc.run, CSPEC, os.path.join(TLA, "MjxContact_Neg.cfg"), workers=2, timeout=600)
+    isel = lambda blk: ("ev",) if 'op |-> "row"' in blk else None
+    jobs["imp"] = ex.submit(tladump.run_dump, ISPEC, os.path.join(TLA, "MjxImpedance_MC.cfg" if quick else "MjxImpedance_Deep.cfg"),
+                            timeout=900, workers=2, coverage=False, select=isel)
+    jobs["impneg"] = ex.submit(tlc.run, ISPEC, os.path.join(TLA, "MjxImpedance_Neg.cfg"), workers=1, timeout=600)
     E = _mjx.env()
     mujoco, mjx, np, jax = E.mujoco, E.mjx, E.np, E.jax
     tladump.timing("import jax+mjx", t0)
@@ -677,11 +880,25 @@ def run(ctx):
     r = jobs["conneg"].result()
     ctx.tlc_ok(r, "MjxContact_Neg", allow_violation=True)
     ctx.control("TLC rejects the wrong contact position (Midway)", bool(r.violation) and "Midway" in r.violation)
-    ex.shutdown(wait=False)
     if not ccases:
         raise Machinery("the contact lattice is empty")
     run_contacts(ctx, E, ccases, report)
     tladump.timing("contacts (%d cases)" % len(ccases), t0)
+    # ---- 4. constraint rows: solref / solimp ------------------------------------------------------------------------------
+    resi, istates, icleanup = jobs["imp"].result()
+    try:
+        ctx.tlc_ok(resi, "MjxImpedance")
+        icases = [st["ev"] for st in istates()]
+    finally:
+        icleanup()
+    r = jobs["impneg"].result()
+    ctx.tlc_ok(r, "MjxImpedance_Neg", allow_violation=True)
+    ctx.control("TLC rejects the sigmoid with a shared scale factor (BranchesMeet)", bool(r.violation) and "BranchesMeet" in r.violation)
+    ex.shutdown(wait=False)
+    if not icases:
+        raise Machinery("the constraint-row lattice is empty")
+    nrows = run_impedance(ctx, E, icases, report, 20 if quick else 60)
+    tladump.timing("constraint rows (%d cases)" % nrows, t0)
     ctx.cov["exhaustive"] = bool(res.finished)
     ctx.cov["rule"] = ("every completed step of the exhaustive lattice run (%d steps over %d (timestep, gravity, integrator, "
                        "flag set) groups, %d actuator presets) replayed through jit(vmap(mjx.step)) and mj_step on packed "
@@ -689,8 +906,11 @@ def run(ctx):
                        "qfrc_passive qfrc_bias qacc actuator_length, four sensors; %d feature-gate cases; non-trivial = every "
                        "case; distinct = distinct (group, preset, parameters, state, inputs); %d contact cases (plane-sphere, "
                        "sphere-sphere in both geom orders x heights x radii x margin x gap) through jit(mjx.fwd_position) and "
-                       "mj_forward: dist, pos, normal, constraint-row presence"
-                       % (len(steps), len(groups), len(presets), len(seen), len(ccases)))
+                       "mj_forward: dist, pos, normal, constraint-row presence; %d constraint rows (limit both sides, contact, joint "
+                       "equality both signs, friction loss x solimp x solref standard/direct x depth in every region of the "
+                       "impedance sigmoid x velocity) through jit(vmap(mjx.fwd_position)) and mj_forward: efc_J, efc_pos, "
+                       "efc_margin, efc_D, efc_aref, efc_frictionloss (the C engine's efc_KBIP against k, b, imp of the spec)"
+                       % (len(steps), len(groups), len(presets), len(seen), len(ccases), nrows))
 
 
 def tladump_py(rec):
@@ -717,6 +937,19 @@ def replay(ctx, rp):
         mjx.put_model(m)
     except NotImplementedError as e:
         print("put_model refuses the model now (accepted outcome): %s" % e)
+        ctx.case({"replay": rp["signature"]})
+        ctx.case({"replay": rp["signature"], "x": 1})
+        return
+    if r["kind"] == "row":
+        mx = mjx.put_model(m)
+        dx = jax.jit(mjx.fwd_position)(mx, mjx.make_data(m).replace(qpos=jp.array(r["qpos"]), qvel=jp.array(r["qvel"])))
+        f = r["field"]
+        a = np.asarray(getattr(dx._impl, f))
+        got = float(a[r["row"], r["body"]] if f == "efc_J" else a[r["row"]])
+        want = Fraction(r["want"][0], r["want"][1])
+        print("%s of row %d: mjx %r, specification %s" % (f, r["row"], got, want))
+        if not near(got, want):
+            ctx.violation(rp["signature"], rp["what"], r)
         ctx.case({"replay": rp["signature"]})
         ctx.case({"replay": rp["signature"], "x": 1})
         return
